@@ -35,9 +35,9 @@ fn c20_alignment_detection_on_arbitrary_window() {
     }
 }
 
-// @verif prop=C20 id=O20.2 tier=quick unwind=4 bound="first 4 bytes of ANY text a SAM writer can emit first: an '@' header line, or a read name over [!-?A-~] followed by TAB (names of 1..=3 bytes or longer), excluding the 4-letter prefix CRAM which is examined separately: detected as SAM" fns="detect_format"
+// @verif prop=C20 id=O20.2 tier=quick unwind=6 bound="first 4 bytes of ANY text a SAM writer can emit first: an '@' header line, or a read name over [!-?A-~] followed by TAB (names of 1..=3 bytes or longer), excluding the 4-letter prefix CRAM which is examined separately: detected as SAM" fns="detect_format"
 #[kani::proof]
-#[kani::unwind(4)]
+#[kani::unwind(6)]
 fn c20_sam_writer_output_is_detected_as_sam() {
     let buf: [u8; 4] = kani::any();
     // what can precede the first TAB of a SAM record / header line
@@ -66,9 +66,9 @@ fn c20_sam_writer_output_is_detected_as_sam() {
     assert!(detect_format(&mut src, None).unwrap() == Format::Sam);
 }
 
-// @verif prop=C20,C12 id=O20.3 tier=quick unwind=4 bound="stream starting with the BAM magic BAM\\1 delivered through a BufRead whose FIRST fill_buf window is any 1..=8 bytes (a short first read): must still be detected as BAM" fns="detect_format"
+// @verif prop=C20,C12 id=O20.3 tier=quick unwind=6 bound="stream starting with the BAM magic BAM\\1 delivered through a BufRead whose FIRST fill_buf window is any 1..=8 bytes (a short first read): must still be detected as BAM" fns="detect_format"
 #[kani::proof]
-#[kani::unwind(4)]
+#[kani::unwind(6)]
 fn c20_bam_magic_detected_for_any_first_window() {
     let data = [b'B', b'A', b'M', 1, 0, 0, 0, 0];
     let mut src = ChunkyBuf::new(&data);
